@@ -243,10 +243,11 @@ theorem sumMap_erase {l : List (α × β)} (hn : keysNodup l) (f : α × β → 
   | cons p l ih =>
     simp only [keysNodup, List.map_cons, List.nodup_cons] at hn
     have hi := ih hn.2
-    by_cases hp : p.1 = k
+    obtain ⟨pk, pv⟩ := p
+    by_cases hp : (pk, pv).1 = k
     · subst hp
-      have hnot : ∀ q ∈ l, q.1 ≠ p.1 := fun q hq e => hn.1 (e ▸ List.mem_map_of_mem hq)
-      have e1 : erase (p :: l) p.1 = l := by
+      have hnot : ∀ q ∈ l, q.1 ≠ pk := fun q hq e => hn.1 (by rw [← e]; exact List.mem_map.mpr ⟨q, hq, rfl⟩)
+      have e1 : erase ((pk, pv) :: l) pk = l := by
         unfold erase
         simp only [List.filter_cons, bne_self_eq_false, Bool.false_eq_true, if_false]
         rw [List.filter_eq_self]
@@ -255,9 +256,9 @@ theorem sumMap_erase {l : List (α × β)} (hn : keysNodup l) (f : α × β → 
       rw [e1, lookup_cons]
       simp
       omega
-    · have e1 : erase (p :: l) k = p :: erase l k := by
+    · have e1 : erase ((pk, pv) :: l) k = (pk, pv) :: erase l k := by
         unfold erase
-        have hb : (p.1 != k) = true := by simp [hp]
+        have hb : ((pk, pv).1 != k) = true := by simpa using hp
         simp only [List.filter_cons, hb, if_true]
       rw [e1, lookup_cons, if_neg hp]
       simp only [sumMap_cons]
@@ -279,7 +280,7 @@ theorem upd_apply {β : Type} (f : Acct → β) (a b : Acct) (v : β) : upd f a 
   funext b; unfold upd; split <;> rfl
 
 /-- what the token invariant reads of a system state, association lists read as functions -/
-structure View where
+@[ext] structure View where
   cl : Acct → Client
   inb : Acct → List Stanza
   outb : Acct → List Stanza
@@ -319,6 +320,11 @@ def setCtr (V : View) (k : Nat) : View := { V with nextCtr := k }
 @[simp] theorem setCtr_cstep (V : View) (x : Acct) (c : Client) (o : List Stanza) (k k' : Nat) :
     (V.setCtr k).cstep x c o k' = V.cstep x c o k' := rfl
 
+@[simp] theorem setCtr_nextCtr (V : View) (k : Nat) : (V.setCtr k).nextCtr = k := rfl
+@[simp] theorem setCtr_accounts (V : View) (k : Nat) : (V.setCtr k).accounts = V.accounts := rfl
+@[simp] theorem setCtr_cl (V : View) (k : Nat) : (V.setCtr k).cl = V.cl := rfl
+@[simp] theorem setCtr_submitted (V : View) (k : Nat) : (V.setCtr k).submitted = V.submitted := rfl
+
 theorem cstep_id (V : View) (x : Acct) : V.cstep x (V.cl x) [] V.nextCtr = V := by
   simp [cstep]
 
@@ -329,42 +335,47 @@ theorem view_setClient (s : Sys) (x : Acct) (c : Client) (hx : x ∈ (view s).ac
   have hacc : (insert s.clients x c).map Prod.fst = s.clients.map Prod.fst := by
     rw [keys_insert', if_pos]
     exact (mem_keys_iff_any _ _).mpr hx
-  simp only [view, View.cstep, List.append_nil, upd_self, View.mk.injEq, and_true, true_and]
-  refine ⟨?_, hacc⟩
-  funext b
-  rw [getClient_setClient]
-  rfl
+  apply View.ext <;> try rfl
+  · funext b
+    show getClient (setClient s x c) b = upd (getClient s) x c b
+    rw [getClient_setClient]
+    rfl
+  · simp [View.cstep, view]; rfl
+  · exact hacc
 
 theorem view_emit (s : Sys) (x : Acct) (st : Stanza) :
     view (emit s x st) = (view s).cstep x ((view s).cl x) [st] (view s).nextCtr := by
-  simp only [view, View.cstep, upd_self, View.mk.injEq, and_true, true_and]
-  refine ⟨rfl, ?_⟩
-  funext b
-  show queueOf (insert s.inbound x _) b = _
-  rw [queueOf_insert]
-  rfl
+  apply View.ext <;> try rfl
+  · simp [View.cstep, view]; rfl
+  · funext b
+    show queueOf (insert s.inbound x _) b = _
+    rw [queueOf_insert]
+    rfl
 
 theorem view_push (s : Sys) (x : Acct) (st : Stanza) :
     view (push s x st) = (view s).pushes (fun b => if b = x then [st] else []) := by
-  simp only [view, View.pushes, View.mk.injEq, and_true, true_and]
+  apply View.ext <;> try rfl
   funext b
   show queueOf (insert s.outbound x _) b = _
   rw [queueOf_insert]
+  simp only [View.pushes, view]
   split
   · next e => rw [e]
   · simp
 
 theorem view_setInbound (s : Sys) (x : Acct) (l : List Stanza) :
     view { s with inbound := insert s.inbound x l } = (view s).popIn x l := by
-  simp only [view, View.popIn, View.mk.injEq, and_true, true_and]
+  apply View.ext <;> try rfl
   funext b
+  show queueOf (insert s.inbound x _) b = _
   rw [queueOf_insert]
   rfl
 
 theorem view_setOutbound (s : Sys) (x : Acct) (l : List Stanza) :
     view { s with outbound := insert s.outbound x l } = (view s).popOut x l := by
-  simp only [view, View.popOut, View.mk.injEq, and_true, true_and]
+  apply View.ext <;> try rfl
   funext b
+  show queueOf (insert s.outbound x _) b = _
   rw [queueOf_insert]
   rfl
 
